@@ -58,17 +58,27 @@ def run(ctx):
     # ---- R14.1 ------------------------------------------------------------------------------------
     f = inc_fn
     ctx.touch(f)
-    st = [x for x in f.stores() if x[2][0] == "index"]
-    ok = len(st) == 1 and len([x for x in f.stores()]) == 1
+    # per path (helper types / accessors inlined, the comparison read whichever way it is written): a path that writes does
+    # exactly one write, row[pos/2] += 1 << shift, after establishing ((row[pos/2] >> shift) & 0xF) < 0xF; no other write
+    want_rv = ("binop", "Add", cell, ("binop", "Shl", ("const", 1, "u8"), SHIFT(pos)))
+    cur = ("binop", "BitAnd", ("binop", "Shr", cell, SHIFT(pos)), ("const", 15, "u8"))
+    is_cur = lambda z: eq_mod_comm(z, cur)
+    is_max = lambda z: z == ("const", 15, "u8")
+    ok = True
     detail = ""
-    if ok:
-        b, i, tgt, rv, s = st[0]
-        want_rv = ("binop", "Add", cell, ("binop", "Shl", ("const", 1, "u8"), SHIFT(pos)))
-        guard = ("binop", "Lt", ("binop", "BitAnd", ("binop", "Shr", cell, SHIFT(pos)), ("const", 15, "u8")), ("const", 15, "u8"))
-        ok = eq_mod_comm(tgt, cell) and eq_mod_comm(rv, want_rv)
-        detail = "store %s = %s" % (fmt(tgt), fmt(rv))
-        ge = [(bb, tt) for bb, expr, tt, ft in bool_branches(f) if eq_mod_comm(expr, guard)]
-        ok = ok and len(ge) == 1 and f.edge_dominates(ge[0], b)
+    n_w = 0
+    for p in ipaths(F, f, stop=lambda n_: False, depth=2):
+        if len(p.stores) > 1:
+            ok, detail = False, "%d writes on one path" % len(p.stores)
+        for tgt, rv, w_ in p.stores:
+            n_w += 1
+            lt = [lt_truth(a, is_cur, is_max) for a in p.atoms if a[4] < w_[3]]
+            lt = [x for x in lt if x is not None]
+            if not (eq_mod_comm(tgt, cell) and eq_mod_comm(rv, want_rv)):
+                ok, detail = False, "store %s = %s" % (fmt(tgt)[:80], fmt(rv)[:120])
+            elif not (lt and lt[-1] is True):
+                ok, detail = False, "the write is not preceded by the saturation test of the same cell"
+    ok = ok and n_w >= 1
     ctx.check(ok, "R14.1", "%s|increment-under-saturation-guard" % f.name,
               "the only write is row[pos/2] += 1 << shift, and only when ((row[pos/2] >> shift) & 0xF) < 0xF for the same index and shift (premise of Lemma A: no carry into the neighbour, no wrap)",
               f.where(), detail)
@@ -237,7 +247,7 @@ def run(ctx):
             # map(|row| reading).fold(MAX, |min, x| if x < min { x } else { min })
             init, fc = Lg.extra.get("fold_init"), Lg.extra.get("fold_fn")
             maps_get = all(len(q.calls({get_fn.name})) == 1 and strip_site(q.ret) == strip_site(q.calls({get_fn.name})[0].res) for q in Lg.bodies)
-            is_min = False
+            is_min = fc is not None and fc[0] == "fnconst" and fc[1].split("<")[0].rstrip(":").endswith(("cmp::Ord::min", "cmp::min"))
             if fc is not None and fc[0] == "agg" and fc[1] in F.fns:
                 rows_ = set()
                 for q in ipaths(F, F.fns[fc[1]], stop=lambda n_: False, depth=1):
